@@ -34,11 +34,12 @@ def resource_dir():
 
 
 class Unit:
-    def __init__(self, src, ndebug=True, match="", extra=()):
+    def __init__(self, src, ndebug=True, match="", extra=(), optional=False):
         self.src = src
         self.ndebug = ndebug
         self.match = match
         self.extra = list(extra)
+        self.optional = optional      # a client unit of the sweep: skipped (with a note) when it cannot be parsed
 
     @property
     def tag(self):
@@ -54,6 +55,12 @@ def lib(rel, **kw):
     return Unit(os.path.join(REPO, "src", "babylon", rel), **kw)
 
 
+def test_unit(rel, **kw):
+    """a unit of the project's own test suite: only the library templates it instantiates are analysed
+    (functions whose body lies under /repo/src), never the test code"""
+    return Unit(os.path.join(REPO, "test", rel), optional=True, **kw)
+
+
 def ensure_extractor():
     if not os.path.exists(EXTRACT):
         raise AnalysisBroken("extractor %s missing: run MANIFEST.setup_cmd (make -C /verif setup)" % EXTRACT)
@@ -62,25 +69,43 @@ def ensure_extractor():
 def extract(units, outdir):
     ensure_extractor()
     rd = resource_dir()
+    proto_inc = []
+    if any(u.optional for u in units):
+        # the test suite includes a header generated from test/proto (the real build generates it into its build directory)
+        pd = os.path.join(outdir, "proto")
+        os.makedirs(pd, exist_ok=True)
+        srcs = glob.glob(os.path.join(REPO, "test", "proto", "*.proto"))
+        if srcs and shutil.which("protoc"):
+            r = subprocess.run(["protoc", "--cpp_out=" + pd, "--proto_path=" + os.path.join(REPO, "test", "proto")] + srcs,
+                               stdout=subprocess.PIPE, stderr=subprocess.PIPE)
+            if r.returncode == 0:
+                proto_inc = ["-I" + pd]
 
     def one(u):
         out = os.path.join(outdir, u.tag + ".json")
-        flags = list(BASE_FLAGS) + (["-DNDEBUG"] if u.ndebug else ["-UNDEBUG"]) + u.extra
+        flags = list(BASE_FLAGS) + (["-DNDEBUG"] if u.ndebug else ["-UNDEBUG"]) + u.extra + (proto_inc if u.optional else [])
         cmd = [EXTRACT, "-o", out, "--root", os.path.join(REPO, "src"), "--root", os.path.join(VERIF, "drivers"),
                "--root", os.path.join(VERIF, "witness")]
         if u.match:
             cmd += ["--match", u.match]
         cmd += [u.src, "--"] + flags + ["-resource-dir", rd]
         if not os.path.exists(u.src):
+            if u.optional:
+                return None
             raise AnalysisBroken("source unit vanished: %s" % u.src)
         p = subprocess.run(cmd, stdout=subprocess.PIPE, stderr=subprocess.PIPE, text=True)
+        if (p.returncode != 0 or not os.path.exists(out)) and u.optional:
+            return None
         if p.returncode != 0 or not os.path.exists(out):
             errs = "\n".join(l for l in p.stderr.splitlines() if "error" in l)[:3000]
             raise ExtractionBroken("extraction failed for %s (the unit no longer compiles with clang):\n%s" % (u.src, errs))
         return out
 
     with ThreadPoolExecutor(max_workers=JOBS) as ex:
-        return list(ex.map(one, units))
+        outs = list(ex.map(one, units))
+    for u, o in zip(units, outs):
+        u.skipped = o is None
+    return [o for o in outs if o is not None]
 
 
 class Ctx:
@@ -177,7 +202,7 @@ def write_evidence(ctx, status, explanation, samples_n=6):
                 "event in the extracted CFG facts; rules that match nothing abort the check (exit 2) instead of being counted",
         "per_rule": by_rule,
         "floors": ctx.floors,
-        "translation_units": [u.src + ("" if u.ndebug else " [-UNDEBUG]") for u in ctx.units],
+        "translation_units": [u.src + ("" if u.ndebug else " [-UNDEBUG]") for u in ctx.units if not getattr(u, "skipped", False)],
         "functions_extracted": sum(len(tu.fns) for tu in ctx.fb.tus) if ctx.fb else 0,
         "samples": samples,
         "notes": ctx.notes[:40],
@@ -252,11 +277,24 @@ def run_property(prop, module, tier):
     try:
         try:
             units = module.units(tier)
+            if tier == "thorough" and not getattr(module, "NO_DEBUG_PASS", False):
+                # the assert-enabled configuration of every unit (debug builds are part of several quantifiers)
+                units = units + [Unit(u.src, False, u.match, u.extra) for u in units
+                                 if u.ndebug and not any(v.src == u.src and not v.ndebug for v in units)]
+            if tier == "thorough":
+                # client sweep: the instantiations the project's own tests use
+                units = units + [test_unit(t) for t in getattr(module, "SWEEP", [])]
             ctx.units = units
             paths = extract(units, scratch)
+            sk = [u.src for u in units if getattr(u, "skipped", False)]
+            if sk:
+                ctx.note("sweep units skipped (not parseable standalone, e.g. need generated protobuf headers): %s" % ", ".join(sk))
             ctx.fb = FactBase(paths)
-            for tu in ctx.fb.tus:
-                if tu.errors:
+            for tu in list(ctx.fb.tus):
+                if tu.errors and os.path.join(REPO, "test") in str(tu.name):
+                    ctx.fb.tus.remove(tu)
+                    ctx.note("sweep unit dropped (compile errors under clang): %s" % tu.name)
+                elif tu.errors:
                     raise AnalysisBroken("unit %s has compile errors under clang" % tu.name)
             module.run(ctx)
             if hasattr(module, "extra") and tier == "thorough":
@@ -264,8 +302,22 @@ def run_property(prop, module, tier):
             if not ctx.obligations:
                 raise AnalysisBroken("no obligation was evaluated")
             known = load_known()
-            if ctx.unmet and not [v for v in ctx.violations if match_known(prop, v, known) is None]:
+            new = [v for v in ctx.violations if match_known(prop, v, known) is None]
+            if ctx.unmet and not new:
                 raise AnalysisBroken("; ".join(ctx.unmet))
+            if tier == "thorough" and not new and "BSA_REPO" not in os.environ and not os.environ.get("BSA_NO_CORPUS"):
+                # the rules are tested both ways against the current tree on every thorough run
+                from . import selftest
+                res = selftest.corpus(prop)
+                ctx.extra_cov["corpus_selftest"] = res
+                print("corpus: %d/%d mutants reported, %d/%d behaviour-preserving edits silent%s" % (
+                    res["mutants_caught"], res["mutants"] - len(res["mutants_not_applicable"]),
+                    res["benign_silent"], res["benign"] - len(res["benign_not_applicable"]),
+                    (" (%d patches no longer apply to this tree)" % (len(res["mutants_not_applicable"]) + len(res["benign_not_applicable"])))
+                    if res["mutants_not_applicable"] or res["benign_not_applicable"] else ""))
+                if res["mutants_not_caught"] or res["benign_alarmed"]:
+                    raise AnalysisBroken("the rules no longer separate the corpus on this tree: not reported %s; alarmed on benign %s" % (
+                        res["mutants_not_caught"], res["benign_alarmed"]))
         except AnalysisBroken as e:
             if [v for v in ctx.violations if match_known(prop, v, load_known()) is None] and not isinstance(e, ExtractionBroken):
                 # concrete violations were already established before the analysis lost an anchor:
